@@ -108,7 +108,8 @@ def run(ctx):
     for b in sorted(fr.live_blocks()):
         t = fr.term(b)
         if t["k"] == "switch":
-            c = fr.expr(t["a"], 10, stop={"named"})
+            # expand named temporaries (`let end = orig + raw.len()`), but keep `orig` itself as a symbol
+            c = fr.expr(t["a"], 12, stop=({od} if od is not None else {"named"}))
             tg = {v: x for v, x in t["targets"]}
             t_true = t["otherwise"] if 0 in tg else tg.get(1)
             t_false = tg.get(0, t["otherwise"])
